@@ -20,6 +20,20 @@ OPTS = {0: 'default', 1: 'full_featured', 2: 'fast_persistence', 5: 'stable_hand
 CONTIG = {2}
 
 
+def fix_orderinf(lines):
+    """initialize_filtration(true) with every simplex ignored falls back to the default initialisation (known finding): the random streams keep at least one simplex below K"""
+    r = stref.Ref(); out = []
+    for l in lines:
+        t = l.split()
+        if t[0] == 'orderinf':
+            if r.c and min(r.c.values()) >= int(t[1]): l = 'orderinf %d' % (min(r.c.values()) + 1)
+        else:
+            try: stref.simulate_one(r, l)
+            except Exception: pass
+        out.append(l)
+    return out
+
+
 def add_order(case, rng, p=0.5):
     out = []
     for l in case:
@@ -28,7 +42,7 @@ def add_order(case, rng, p=0.5):
             out.append('order')
             if rng.random() < 0.4: out.append('orderinf %d' % rng.randrange(0, 6))     # initialize_filtration(ignore_infinite_values = true), values >= K made infinite
     out.append('order'); out.append('orderinf %d' % rng.randrange(1, 5)); out.append('order')
-    return [l for l in out if l != 'obs'] + ['cplx']
+    return fix_orderinf([l for l in out if l != 'obs'] + ['cplx'])
 
 
 def gen_mfnd(rng, contig=False):
@@ -51,7 +65,7 @@ def gen_mfnd(rng, contig=False):
             if contig and not stref.contiguous(r2): continue
             lines += ['prunef %d' % f, 'cplx', 'order']; r.prunef(f)
     lines.append('mfnd')
-    return lines
+    return fix_orderinf(lines)
 
 
 def gen_extend(rng, contig=False):
@@ -67,7 +81,7 @@ def gen_extend(rng, contig=False):
         f = max(vals[v] for v in s) + rng.randrange(0, 3)
         lines.append('insf %d %s' % (f, ' '.join(map(str, s)))); r.insf(f, s)
     lines += ['extend', 'cplx', 'order', 'orderinf %d' % rng.choice([-2 * max(D, 1), -max(D, 1), 0, max(D, 1), 2 * max(D, 1)]), 'order']
-    return lines
+    return fix_orderinf(lines)
 
 
 def gen_same_complex(rng, k=3):
@@ -137,11 +151,27 @@ def run(ctx):
         cases = big + [add_order(gen_c01(ctx.rng, maxlen=12, obs_p=0), ctx.rng) for _ in range(30)]
         vlib.correspondence(ctx, 'default_tbb_threads%d' % threads, ['env', 'TBB_NUM_THREADS=%d' % threads, exes['hST0_tbb'], str(threads)], drv, cases,
                             nontrivial=nontriv, keep_prefix=1, oracle=stref.oracle, valid=stref.valid)
+    # the same statement for the cubical complexes (Bitmap_cubical_complex::initialize_filtration): the order is (value, dimension, position),
+    # a function of the filtered complex alone - sequential and TBB builds, large grids so that the sort really permutes tied cells
+    from props import C13
+    csrc = os.path.join(vlib.VERIF, 'harness', 'hC13.cpp')
+    cex, cerr = vlib.build_many(ctx, [dict(name='hC13', src=csrc), dict(name='hC13_tbb', src=csrc, defines=['GUDHI_USE_TBB'], libs=['-ltbb'])])
+    cdrv = [vlib.driver_path(), 'C13']
+    for nm in ('hC13', 'hC13_tbb'):
+        if not cex.get(nm): ctx.notes.append('cubical harness did not build: ' + str(cerr.get(nm))[-300:]); continue
+        ccases = [[l for l in C13.gen_case(ctx.rng, maxdim=3, maxside=5, bars=False) if l.split()[0] in ('cub', 'order')] for _ in range(n)]
+        ccases += [[l for l in C13.gen_case(ctx.rng, maxdim=2, maxside=14, bars=False) if l.split()[0] in ('cub', 'order')] for _ in range(8)]
+        vlib.correspondence(ctx, 'cubical_order' + ('_tbb' if nm.endswith('tbb') else ''), [cex[nm]], cdrv, ccases, keep_prefix=1, oracle=C13.oracle)
+    vlib.run_known_witnesses(ctx, {OPTS[k]: [exes['hST%d' % k]] for k in OPTS}, drv, stref.oracle)
     ctx.extra['partial'] = PARTIAL
 
 
 def replay_cmds(ctx, rp):
     name = rp.get('stream', 'default')
+    if name.startswith('cubical_order'):
+        tbb = name.endswith('_tbb')
+        exe, err = vlib.build_harness(ctx, 'hC13_tbb' if tbb else 'hC13', os.path.join(vlib.VERIF, 'harness', 'hC13.cpp'), defines=['GUDHI_USE_TBB'] if tbb else [], libs=['-ltbb'] if tbb else [])
+        return ([exe], [vlib.driver_path(), 'C13']) if exe else None
     if 'tbb' in name:
         exe, err = vlib.build_harness(ctx, 'hST0_tbb', os.path.join(vlib.VERIF, 'harness', 'hST.cpp'), defines=['OPTN=0', 'GUDHI_USE_TBB'], libs=['-ltbb'])
         return ([exe, name.split('threads')[-1]], [vlib.driver_path(), 'ST']) if exe else None
